@@ -123,6 +123,20 @@ theorem pin_has_entry (cfg : Cfg) (hT : cfg.pinTTL ≤ cfg.verTTL) (t0 : Nat) (o
   obtain ⟨e, he, _⟩ := hinv.pinOk x v hpin
   exact ⟨e, he, hinv.pinQle _ he⟩
 
+/-- Finer interleaving: a reload that completes while a NEW transaction is being anchored - after
+    `setTxnVersion` has written the anchor under the lock, before `GetTxnPoliciesData` reads the anchored
+    version - does not change what that lookup returns: it is the same as the lookup followed by the reload. -/
+theorem anchored_read_survives_reload (cfg : Cfg) (hT : cfg.pinTTL ≤ cfg.verTTL) (t0 : Nat) (ops : List Op)
+    (x d : Nat) (hfresh : mfind x (runSt cfg (init cfg t0) ops).pins = none) :
+    getData (step cfg (step cfg (runSt cfg (init cfg t0) ops) (.lookup x)).1 (.update d true)).1
+        (runSt cfg (init cfg t0) ops).cur =
+      getData (step cfg (runSt cfg (init cfg t0) ops) (.lookup x)).1 (runSt cfg (init cfg t0) ops).cur := by
+  have hinv := (run_holds cfg hT ops (init cfg t0) [] (inv_init cfg t0) rfl).2
+  have hc := hinv.curData
+  rw [step_lookup_fresh cfg _ x hfresh]
+  simp only [step, getData]
+  rw [mfind_minsert_ne _ _ _ _ (by omega), hc]
+
 /-- `queue_sorted`: both vacuum queues are always in `vacuumAt` order (no hypothesis on the ttls). -/
 theorem queue_sorted (cfg : Cfg) (t0 : Nat) (ops : List Op) :
     sortedQ (runSt cfg (init cfg t0) ops).pinQ ∧ sortedQ (runSt cfg (init cfg t0) ops).verQ := by
